@@ -311,10 +311,10 @@ def form_oracles(ctx, st, A, kind, case, S, B, nets, g, scale):
 
 # second audit C03-2: `gradient` documents `basis: numpy.ndarray or list[str] or None`.  For a BATCH the code at /repo HEAD accepts a 2-D char
 # array and a list of lists of letters, but raises IndexError for one basis STRING per sample (list[str], tuple of str, 1-D str ndarray):
-# proposed/F22_gradient_bases_list_of_str.{md,diff}.  Until the integrator applies the fix, a refusal of those forms is an informational
+# proposed/F23_gradient_bases_list_of_str.{md,diff}.  Until the integrator applies the fix, a refusal of those forms is an informational
 # counter (set this to True afterwards: the refusal then is a failed call form); if a form is ACCEPTED its value must be the 2-D char
 # array's at property level in either case.
-LIST_STR_BATCH_REFUSAL_IS_VIOLATION = False
+LIST_STR_BATCH_REFUSAL_IS_VIOLATION = __import__("os").environ.get("QV_C03_F23_APPLIED") == "1"
 
 
 def container_forms(ctx, st, kind, case, n, data, S, B, space_t, g, pp, ex, scale):
@@ -346,7 +346,7 @@ def container_forms(ctx, st, kind, case, n, data, S, B, space_t, g, pp, ex, scal
             ctx.count(f"bases of a batch as {fname}: accepted")
         except Exception as e:  # noqa: BLE001
             if stringrows and not LIST_STR_BATCH_REFUSAL_IS_VIOLATION:
-                ctx.count(f"bases of a batch as {fname}: refused with {type(e).__name__} (informational: proposed finding F22)")
+                ctx.count(f"bases of a batch as {fname}: refused with {type(e).__name__} (informational: proposed finding F23)")
                 continue
             okf, det = False, {"exception": type(e).__name__, "message": str(e)[:200]}
         ctx.oracle(f"gradient(samples, bases as {fname}) == gradient(samples, 2-D char array)", bool(okf), case, detail=det,
